@@ -546,7 +546,10 @@ class Impl:
                 return self._h(m, fn((vname(k) for k in args[1]), F(args[0])))
             return self._h(m, a.quantify(F(args[0]), (vname(k) for k in args[1]), args[2]))
         if name == 'cube':
-            return self._h(m, a.cube({vname(k): v for k, v in args[0].items()}))
+            d_ = args[0]
+            if d_ and all(v is True for v in d_.values()) and len(d_) % 2 == 0:
+                return self._h(m, a.cube(vname(k) for k in d_))
+            return self._h(m, a.cube({vname(k): v for k, v in d_.items()}))
         if name == 'find_or_add':
             return self._h(m, a.find_or_add(vname(args[0]), F(args[1]), F(args[2])))
         if name == 'support':
@@ -771,6 +774,10 @@ class Impl:
         b.collect_garbage(roots)
 
     def op_swap(self, b, x, y):
+        n = len(b.vars)
+        if isinstance(x, int) and isinstance(y, int) and 0 <= x < n and 0 <= y < n and (x + y) % 4 == 1:
+            # the same call with the variables given by NAME
+            return b.swap(b.var_at_level(x), b.var_at_level(y))
         return b.swap(x, y)
 
     def op_reorder(self, b, order):
@@ -831,6 +838,11 @@ class Impl:
         return b.let({vname(k): vname(v) for k, v in d.items()}, u)
 
     def op_cube(self, b, d):
+        if d and all(v is True for v in d.values()) and len(d) % 2 == 0:
+            # a conjunction of positive literals may be given as a set of names
+            # (as a one-shot iterator: the parameter is documented as an iterable, and the
+            # call may be retried after a dynamic reordering)
+            return b.cube(vname(k) for k in d)
         return b.cube({vname(k): v for k, v in d.items()})
 
     def op_copy(self, b, src, u):
